@@ -257,6 +257,8 @@ func runC09(c *Ctx) {
 	})
 	checkInvalidationAlwaysEvicts(c, "C09-R2")
 	checkIssuingTransactionKeepsAccountCache(c, "C09-R2")
+	checkScopeNamespaceCreatedExclusively(c, "C09-R2")
+	checkSameNamedParametersNotCrossed(c, "C09-R2", "waddrmgr") // the persisted next indices of the two branches are not exchanged
 	checkDryRunFlagForwardedOrFalse(c, "C09-R2")
 	// nothing but the commit callback (and the loader) moves the in-memory next index: a reader that writes a
 	// snapshot's index back rewinds it behind a concurrent issuer (C08-R1's rule, taken over)
